@@ -34,6 +34,10 @@ impl Controller for StaticResourceController {
 
         let components = boxed_url_components.unwrap();
 
+        if StaticResourceController::has_parent_directory_segment(&components.path) {
+            return false
+        }
+
         let os_specific_separator : String = FileExt::get_path_separator();
         let os_specific_path = &components.path.replace(SYMBOL.slash, os_specific_separator.as_str());
 
@@ -177,7 +181,16 @@ impl Controller for StaticResourceController {
 //backward compatability
 impl StaticResourceController {
 
+    // a dot-dot segment resolves outside of the directory being served
+    fn has_parent_directory_segment(path: &str) -> bool {
+        path.split(|c| c == '/' || c == '\\').any(|segment| segment == "..")
+    }
+
     pub fn is_matching_request(request: &Request) -> bool {
+        if StaticResourceController::has_parent_directory_segment(&request.request_uri) {
+            return false
+        }
+
         let boxed_static_filepath = FileExt::get_static_filepath(&request.request_uri);
         if boxed_static_filepath.is_err() {
             return false
@@ -275,6 +288,14 @@ impl StaticResourceController {
         }
 
         let components = boxed_url_components.unwrap();
+
+        if StaticResourceController::has_parent_directory_segment(&components.path) {
+            let error = Error {
+                status_code_reason_phrase: STATUS_CODE_REASON_PHRASE.n403_forbidden,
+                message: "path leads outside of the directory being served".to_string()
+            };
+            return Err(error)
+        }
 
         let os_specific_separator : String = FileExt::get_path_separator();
         let os_specific_path = &components.path.replace(SYMBOL.slash, os_specific_separator.as_str());
